@@ -7,7 +7,7 @@ DRIVER = dev_ctl.DRIVER
 REQUIRED_THEOREMS = ["address_changes_only_on_status_ack", "configuration_changes_only_on_status_ack", "old_address_until_commit", "foreign_ack_does_not_commit", "setup_latched_only_by_setup_transaction", "bus_reset_clears", "commit_returns_to_idle"]
 RULE = dev_ctl.RULE
 ASSUMPTIONS = dev_ctl.ASSUMPTIONS
-PARTIAL = ""
+PARTIAL = dev_ctl.PARTIAL["C08"]
 
 
 def gen_cases(tier, rng):
